@@ -6,7 +6,7 @@
 //! for its length and pointer, nothing is dereferenced) - this reaches counts no buffer can hold.
 //! The observation (guard.len(), guard.as_ptr() - parent base) is compared with the byte length
 //! the accessor covers as computed from (kind, size_of T, count) by the spec checker.
-//! In the standard build this file also provides the empty stand-ins for C17xen / C17xenfind.
+//! In the standard build this file also provides the empty stand-ins for C17xen / C17xenfind / C17xenchain.
 use crate::tok::n;
 use crate::{util, Rng, Suite, Tier, Tok};
 use vm_memory::{ByteValued, VolatileArrayRef, VolatileMemory, VolatileRef, VolatileSlice};
@@ -23,6 +23,7 @@ pub const SUITES: &[Suite] = &[
     Suite { name: "C17", gen, exec },
     Suite { name: "C17xen", gen: nogen, exec: noexec },
     Suite { name: "C17xenfind", gen: nogen, exec: noexec },
+    Suite { name: "C17xenchain", gen: nogen, exec: noexec },
 ];
 
 const FAKE: usize = 0x10_0000_0000; // fake parent base for route 1 (16-aligned, never dereferenced)
